@@ -225,6 +225,29 @@ pub fn structured() -> Vec<(String, Deviation)> {
         ] {
             v.push((format!("connect response bytes {}", vref::bytes::hex(&raw)), Deviation { msg: "connect_response".into(), kind: DevKind::Replace(vref::framing::tpkt(&vref::framing::x224_dt(&raw))) }));
         }
+        // the connect-response identifier spelled with padding digits (7f 80 66 / 7f 80 80 66: a reader that ends the tag number
+        // at the first octet <= 0x80 and one that does not see different elements from there on), in front of elements that
+        // declare lengths near 2^64 / an indefinite length; zero-filled so that either reading finds enough octets
+        for inner in [
+            vec![0x0au8, 0x88, 0xff, 0xff, 0xff, 0xff, 0xff, 0xff, 0xff, 0xff],
+            vec![0x30, 0x0a, 0x04, 0x88, 0xff, 0xff, 0xff, 0xff, 0xff, 0xff, 0xff, 0xff],
+            vec![0x02, 0x88, 0xff, 0xff, 0xff, 0xff, 0xff, 0xff, 0xff, 0xf0],
+            vec![0x30, 0x80, 0x02, 0x88, 0xff, 0xff, 0xff, 0xff, 0xff, 0xff, 0xff, 0xff],
+            vec![0x04, 0x87, 0xff, 0xff, 0xff, 0xff, 0xff, 0xff, 0xff],
+            vec![0x0a, 0x01, 0x00, 0x02, 0x01, 0x00],
+        ] {
+            for digits in [1usize, 2, 9] {
+                for second in [0x50u8, 0x66, 0x7f, 0x80, 0x81] {
+                    let mut raw = vec![0x7fu8];
+                    raw.extend(std::iter::repeat(0x80).take(digits));
+                    raw.extend([0x66, second]);
+                    raw.extend(&inner);
+                    let total = 3 + digits + 0x66 + 0x50;
+                    raw.resize(total, 0);
+                    v.push((format!("connect response with a padded identifier: {}..", vref::bytes::hex(&raw[..raw.len().min(20)])), Deviation { msg: "connect_response".into(), kind: DevKind::Replace(vref::framing::tpkt(&vref::framing::x224_dt(&raw))) }));
+                }
+            }
+        }
         variants.push(("SC_CORE only".into(), core(0x00080004, Some(1), Some(1))));
         variants.push(("SC_NET only".into(), net(vec![])));
         variants.push(("SC_SECURITY only".into(), sec.clone()));
@@ -395,7 +418,7 @@ impl Prop for C05 {
         json!({"idx": idx, "block": b, "config": cfg, "deviations": devs, "direct_input_hex": direct.map(|d| vref::bytes::hex(&d))})
     }
     fn rule(&self) -> String {
-        "cases = an honest setup conversation with <=1 deviation (<=2 in thorough). [cc] x224::Client::connect for offered masks {3,1} and 0 (no authentication provider): the connection confirm with every byte offset x value set (12 boundary values + honest+-1 in quick, all 256 in thorough), every offset as 16/32-bit field in both byte orders x boundary set, every truncation, extensions {+1,+2,+1500}; [conn] the same over connect-response, attach-confirm, both join-confirms and the licence PDU for two server configurations, executed through the real mcs::Client::connect + sec::connect; [inner] each message's payload replaced by every byte string of length <=2 and every string of length 3..5 (..6 in thorough) over {00,01,02,03,04,7F,80,FF}; [frame] each whole message replaced by every string of length <=2 (<=3 in thorough) plus the alphabet strings, unframed (the TPKT / fast-path frame reader is the entry); [direct] the same strings fed to gcc::read_conference_create_response, license::client_connect and the per::read_* primitives; [structured] well-formed but unusual messages: the MCS connect response with every result code 0..15 x 4 BER length widths, SC_CORE bodies of 0..100 bytes, SC_NET with 1..8000 channels and inconsistent counts, SC_SECURITY with every combination of small / huge serverRandomLen and serverCertLen with and without the bytes, blocks missing / repeated / unknown / empty, node ids; the X.224 confirm with every negotiation type x result / failure code 0..9, 0xFF, 0x100, 2^32-1 x flags; attach and join confirms with every result code 0..15 and right / wrong echoed ids; licensing error alerts over 12 codes x 5 state transitions x 9 blob lengths with consistent length fields, every licensing message type x body length x security-header flags; a disconnect ultimatum with every reason in place of each later message; each for both offered masks / server configurations; [pairs, thorough] all pairs of {byte:=00, byte:=FF, truncate} over all offsets of all five messages. Non-trivial: the deviation changed bytes the client consumed (the outcome differs from the honest one or the mutated message was reached).".into()
+        "cases = an honest setup conversation with <=1 deviation (<=2 in thorough). [cc] x224::Client::connect for offered masks {3,1} and 0 (no authentication provider): the connection confirm with every byte offset x value set (12 boundary values + honest+-1 in quick, all 256 in thorough), every offset as 16/32-bit field in both byte orders x boundary set, every truncation, extensions {+1,+2,+1500}; [conn] the same over connect-response, attach-confirm, both join-confirms and the licence PDU for two server configurations, executed through the real mcs::Client::connect + sec::connect; [inner] each message's payload replaced by every byte string of length <=2 and every string of length 3..5 (..6 in thorough) over {00,01,02,03,04,7F,80,FF}; [frame] each whole message replaced by every string of length <=2 (<=3 in thorough) plus the alphabet strings, unframed (the TPKT / fast-path frame reader is the entry); [direct] the same strings fed to gcc::read_conference_create_response, license::client_connect and the per::read_* primitives; [structured] well-formed but unusual messages: the MCS connect response with every result code 0..15 x 4 BER length widths, SC_CORE bodies of 0..100 bytes, SC_NET with 1..8000 channels and inconsistent counts, SC_SECURITY with every combination of small / huge serverRandomLen and serverCertLen with and without the bytes, blocks missing / repeated / unknown / empty, node ids; the X.224 confirm with every negotiation type x result / failure code 0..9, 0xFF, 0x100, 2^32-1 x flags; attach and join confirms with every result code 0..15 and right / wrong echoed ids; licensing error alerts over 12 codes x 5 state transitions x 9 blob lengths with consistent length fields, every licensing message type x body length x security-header flags; a disconnect ultimatum with every reason in place of each later message; each for both offered masks / server configurations; [pairs, thorough] all pairs of {byte:=00, byte:=FF, truncate} over all offsets of all five messages. Non-trivial: the deviation changed bytes the client consumed (the outcome differs from the honest one or the mutated message was reached). After every structured, truncated or length-rewritten connect response the same thread makes three more connections: to a 6-byte and a 3-byte connect response, then to an honest server (nothing noted while walking one stream may be applied to the next).".into()
     }
     fn assumptions(&self) -> Vec<String> {
         vec![
@@ -437,12 +460,25 @@ impl Prop for C05 {
                 Outcome::pass(format!("cc:{}:{}", dev_class(&devs[0]), r), applied)
             }
             _ => {
-                let c = raw_connect(&ClientCfg::default(), server_cfg(cfg % 2), devs.clone());
+                // the structured shapes run three times: against two server configurations after TLS was selected, and (third)
+                // as after a server that selected standard RDP security
+                let c = if block == "structured" && cfg == 2 { crate::fixture::raw_connect_as(&ClientCfg::default(), server_cfg(0), devs.clone(), rdp::core::x224::Protocols::ProtocolRDP) } else { raw_connect(&ClientCfg::default(), server_cfg(cfg % 2), devs.clone()) };
                 let applied = c.peer.borrow().srv.dev_applied.iter().filter(|a| **a).count();
                 let res = match &c.error {
                     None => "ok".to_string(),
                     Some((st, e)) => format!("{}:{}", st, err_class(e)),
                 };
+                // whatever became of this connect response (structured shapes, truncations, rewritten length fields): the next
+                // connection of the thread meets a much shorter one, then an honest one — nothing noted while walking the
+                // first stream may be applied to the next
+                if devs[0].msg.contains("connect") && (block == "structured" || matches!(devs[0].kind, DevKind::Truncate(_) | DevKind::SetU16 { .. } | DevKind::SetU32 { .. })) {
+                    drop(c);
+                    for tiny in [vec![0x7f, 0x66, 0x03, 0x0a, 0x01, 0x00], vec![0x7f, 0x66, 0x00]] {
+                        let f = vref::framing::tpkt(&vref::framing::x224_dt(&tiny));
+                        let _ = raw_connect(&ClientCfg::default(), server_cfg(0), vec![Deviation { msg: devs[0].msg.clone(), kind: DevKind::Replace(f) }]);
+                    }
+                    let _ = raw_connect(&ClientCfg::default(), server_cfg(0), vec![]);
+                }
                 Outcome::pass(format!("{}:{}:{}:{}", block, devs[0].msg, dev_class(&devs[0]), res), applied == devs.len())
             }
         }
